@@ -11,6 +11,7 @@ import (
 	"bytes"
 	"errors"
 	"io"
+	"math"
 	"os"
 	"path"
 	"path/filepath"
@@ -103,6 +104,8 @@ func NewParser(ctx *processors.Context, reader io.Reader) *Parser {
 func (p *Parser) Parse(formatOnly bool) (*bytes.Buffer, int) {
 	fileScanner := bufio.NewScanner(p.src)
 	fileScanner.Split(bufio.ScanLines)
+	// lines can be longer than the scanner's default limit of 64 KiB
+	fileScanner.Buffer(nil, math.MaxInt)
 	wrote := 0
 	var text string
 
